@@ -3,7 +3,9 @@
    This file only closes statements with proved lemmas; the instance theorems are concrete histories
    (with the observations the implementation produced for them) re-evaluated inside Coq. *)
 From Coq Require Import List NArith.
-From Proto Require Import Broker Script ProofsBasic ProofsInstances.
+From Base Require Import Bytes.
+From Codec Require Import Impl Script.
+From Proto Require Import Broker Script ProofsBasic ProofsInstances Props ProofsSub.
 Import ListNotations.
 Open Scope N_scope.
 
@@ -14,3 +16,25 @@ Print Assumptions C02_instance_c02_qos2_duplicates.
 Theorem C02_instance_c02_pubrel_out_of_order : run_broker [262144] h_c02_pubrel_out_of_order = o_c02_pubrel_out_of_order.
 Proof. exact ProofsInstances.inst_c02_pubrel_out_of_order. Qed.
 Print Assumptions C02_instance_c02_pubrel_out_of_order.
+
+(* QoS 1: handed on once and answered by PUBACK with the same identifier *)
+Theorem C02_puback : Props.C02_puback.
+Proof. exact ProofsSub.puback. Qed.
+Print Assumptions C02_puback.
+
+(* QoS 2: stored (once per identifier), answered by PUBREC, nothing handed on *)
+Theorem C02_pubrec : Props.C02_pubrec.
+Proof. exact ProofsSub.pubrec. Qed.
+Print Assumptions C02_pubrec.
+
+(* PUBREL: answered by PUBCOMP, releases in arrival order *)
+Theorem C02_pubcomp : Props.C02_pubcomp.
+Proof. exact ProofsSub.pubcomp. Qed.
+Print Assumptions C02_pubcomp.
+
+(* ... and storing a QoS 2 message touches no other session *)
+Theorem C02_pubrec_other_sessions : forall br c k raw p br1 o r k',
+  process_incoming br c k raw (MPub p) = (br1, o, r) -> pub_qos p = 2 -> packet_id (p_h p) < 65536 ->
+  beq_bytes k k' = false -> assoc_b k' (br_sess br1) = assoc_b k' (br_sess br).
+Proof. exact ProofsSub.pubrec_other_sessions. Qed.
+Print Assumptions C02_pubrec_other_sessions.
